@@ -77,6 +77,12 @@ def gen_case(rng, tier):
     index = [rng.randint(0, 6) for _ in range(n)] if container == "pandas" else None
     # the execution strategy must not matter (C03): a third of the cases run chunk-factorized and / or multi-threaded
     strat = rng.choice([None, None, None, None, "chunked", "threads", "both"])
+    if rng.random() < 0.12 and n >= 2:
+        # multiplicity: a row named k times by a positional mask counts k times, under every strategy
+        k = rng.randint(2, n + 2)
+        mask = ("i", sorted(rng.randrange(n) for _ in range(k)))
+        strat = rng.choice([None, "chunked", "chunked", "threads", "both"])
+        op = rng.choice([o for o in OPS_BY_DT[dt] if o in ("size", "count", "sum", "mean")] or OPS_BY_DT[dt])
     return dict(keycols=keycols, kinds=kinds, dt=dt, vals=vals, mask=mask, op=op, container=container, index=index, strategy=strat)
 
 
